@@ -162,8 +162,7 @@ func rsIntrospect(r rs.ResourceServer, tok string) (*oidc.IntrospectionResponse,
 }
 
 // teExchange exchanges a subject token. Opaque access tokens are never used as subject or actor: on this tree they
-// make the provider panic (defect D4 of C09/C15, op.GetTokenIDAndSubjectFromToken), which is not C20's business and
-// a recovered panic garbles the race detector's shadow stack of the goroutine.
+// make the provider panic (defect D4 of C09/C15, op.GetTokenIDAndSubjectFromToken), which is not C20's business.
 func teExchange(te tokenexchange.TokenExchanger, subject string, subjectType, requested oidc.TokenType) (*oidc.TokenExchangeResponse, error) {
 	return tokenexchange.ExchangeToken(ctxBG, te, subject, subjectType, "", "", nil, nil, []string{"openid"}, requested)
 }
